@@ -52,11 +52,10 @@ type Sched struct {
 	parked  map[int64]*parked
 	passed  map[string]int // gate key -> number of arrivals so far
 	gateLog []string       // arrival order of gates (free/delay mode), for enumerating delay targets
-	// delay mode
-	delayKey string
-	delayNth int
-	delayHit bool
-	delayG   int64
+	// delay mode: gate occurrences ("key#nth") to hold, those already held once, goroutines held now
+	delays   map[string]bool
+	delayHit map[string]bool
+	held     []int64
 	// classification of messages is supplied by the driver
 	Classify  func(point string, kv []any) (key string, ev map[string]any, role string)
 	recording bool
@@ -80,11 +79,14 @@ func GoID() int64 {
 	return id
 }
 
-// SetDelay selects the gate occurrence to hold in Delay mode.
+// SetDelay adds a gate occurrence to hold in Delay mode (several may be set: pairs of delays).
 func (s *Sched) SetDelay(key string, nth int) {
 	s.mu.Lock()
 	defer s.mu.Unlock()
-	s.delayKey, s.delayNth = key, nth
+	if s.delays == nil {
+		s.delays, s.delayHit = map[string]bool{}, map[string]bool{}
+	}
+	s.delays[fmt.Sprintf("%s#%d", key, nth)] = true
 }
 
 // SetRole names the calling goroutine (used by the driver for its own goroutines).
@@ -158,12 +160,13 @@ func (s *Sched) Gate(g int64, key string) {
 		return
 	case Delay:
 		s.gateLog = append(s.gateLog, key)
-		if s.delayHit || key != s.delayKey || nth != s.delayNth {
+		occ := fmt.Sprintf("%s#%d", key, nth)
+		if !s.delays[occ] || s.delayHit[occ] {
 			s.mu.Unlock()
 			return
 		}
-		s.delayHit = true
-		s.delayG = g
+		s.delayHit[occ] = true
+		s.held = append(s.held, g)
 	}
 	p := &parked{key: key, role: s.roles[g], ch: make(chan struct{})}
 	s.parked[g] = p
@@ -318,29 +321,33 @@ func (s *Sched) WaitSettled(timeout time.Duration) bool {
 	}
 }
 
-// ReleaseDelayed waits (Delay mode) until the chosen gate occurrence is held and everything else has
-// settled, then opens it. It gives up only when stop is closed (the scenario is over) and reports
-// whether the occurrence was reached.
-func (s *Sched) ReleaseDelayed(stop <-chan struct{}) bool {
+// ReleaseDelayed serves Delay mode until stop is closed: whenever a chosen gate occurrence is held and
+// everything else has settled, it is opened. Returns how many of the chosen occurrences were reached.
+func (s *Sched) ReleaseDelayed(stop <-chan struct{}) int {
 	for {
 		s.mu.Lock()
-		hit := s.delayHit
+		var g int64 = -1
 		var p *parked
-		if hit {
-			p = s.parked[s.delayG]
+		if len(s.held) > 0 {
+			g = s.held[0]
+			p = s.parked[g]
 		}
 		s.mu.Unlock()
-		if hit && p != nil {
+		if p != nil {
 			s.WaitSettled(5 * time.Second)
 			s.mu.Lock()
-			delete(s.parked, s.delayG)
+			delete(s.parked, g)
+			s.held = s.held[1:]
 			s.mu.Unlock()
 			close(p.ch)
-			return true
+			continue
 		}
 		select {
 		case <-stop:
-			return false
+			s.mu.Lock()
+			n := len(s.delayHit)
+			s.mu.Unlock()
+			return n
 		default:
 		}
 		time.Sleep(50 * time.Microsecond)
